@@ -271,16 +271,21 @@ func (api *API) mapEncodeStructFields(
 			continue
 		}
 
-		if sField.settings.omitEmpty && api.isValueEmpty(fieldValue) {
+		leftOut := sField.settings.omitEmpty && api.isValueEmpty(fieldValue)
+		if sField.settings.isOptional && fieldValue.IsNil() {
+			leftOut = true
+		}
+		if leftOut {
+			// the decoder can't know whether an inlined member is there if the member writes its map form itself (its
+			// keys are not known): it always reads such a member, which therefore can't be left out
+			if sField.settings.inlined && sField.settings.ts.fieldKey == nil && deRefPointers(sField.fType).Kind() != reflect.Map && hasJSONCodec(sField.fType) {
+				return ierrors.Errorf("inlined field %s has a JSON codec of its own and can't be left out of the map form", sField.name)
+			}
+
 			continue
 		}
 
 		var eleOut any
-		if sField.settings.isOptional {
-			if fieldValue.IsNil() {
-				continue
-			}
-		}
 
 		eleOut, err = api.mapEncode(ctx, fieldValue, sField.settings.ts, opts)
 		if err != nil {
